@@ -30,7 +30,7 @@ pub open spec fn carrier_hyp(a: Run, b: Run, lm: bool, idx: Seq<int>, cs: real) 
 /// idx[i2] and the load-matching factor is the same; (2) every annual figure is ct times the first one's; (3) the weighting step gives a
 /// result for both or for neither, and every weighted figure (steps A and B, per service) is ct times the first one's.
 pub proof fn thm_carrier(a: Run, b: Run, lm: bool, idx: Seq<int>, cs: real, ct: real, w: Seq<Factor>, w2: Seq<Factor>, c: Carrier, k: real, r: Result<WeightedEnergy>, r2: Result<WeightedEnergy>)
-    requires carrier_hyp(a, b, lm, idx, cs), ct > 0real, lay_sums(idx, run_n(a), cs, ct), fp_same(w, w2, c),
+    requires carrier_hyp(a, b, lm, idx, cs), ct > 0real, lay_sums(idx, run_n(a), cs, ct), we_lookups_same(w, w2, c, a.exp, a.del),
              cwe_post(w, c, k, a.used, a.exp, a.del, r), cwe_post(w2, c, k, b.used, b.exp, b.del, r2),
     ensures steps_rel(a, b, idx, cs), doms_same_r(a, b), annual_rel(a, b, ct),
             (r is Ok) == (r2 is Ok), r is Ok ==> we_rel(r->Ok_0, r2->Ok_0, ct),
@@ -68,7 +68,7 @@ pub proof fn thm_c11_carrier(a: Run, b: Run, lm: bool, c: real, w: Seq<Factor>, 
         assert(in_dom(rv(a.prod.t@[i2])));
     }
     lemma_lay_same(n, c);
-    assert(fp_same(w, w, cr));
+    assert(fp_same(w, w, cr)); lemma_fp_same_lookups(w, w, cr, a.exp, a.del);
     thm_carrier(a, b, lm, idx, c, c, w, w, cr, k, r, r2);
     assert forall|i: int| 0 <= i < run_n(a) implies #[trigger] step_rel_r(a, b, i, i, c) by { assert(idx[i] == i); }
 }
@@ -96,7 +96,7 @@ pub proof fn thm_c09_perm_carrier(a: Run, b: Run, lm: bool, idx: Seq<int>, w: Se
         assert(1real * rv(a.prod.t@[idx[i2]]) == rv(a.prod.t@[idx[i2]])) by(nonlinear_arith);
     }
     lemma_lay_perm(idx, n);
-    assert(fp_same(w, w, cr));
+    assert(fp_same(w, w, cr)); lemma_fp_same_lookups(w, w, cr, a.exp, a.del);
     thm_carrier(a, b, lm, idx, 1real, 1real, w, w, cr, k, r, r2);
 }
 /// the total production of a step is related like the classified sums (used to carry the value domain across a permutation)
@@ -151,6 +151,6 @@ pub proof fn thm_c09_subdiv_carrier(a: Run, b: Run, lm: bool, m: int, w: Seq<Fac
         assert(in_dom(rv(b.prod.t@[i2])));
     }
     lemma_lay_subdiv(n, m);
-    assert(fp_same(w, w, cr));
+    assert(fp_same(w, w, cr)); lemma_fp_same_lookups(w, w, cr, a.exp, a.del);
     thm_carrier(a, b, lm, idx, cs, 1real, w, w, cr, k, r, r2);
 }
